@@ -36,6 +36,8 @@ package slug
 
 //@ func (*Packer).packWalkFn$1 -> (err)
 //@   sweep
+//@   replay packFifo:
+//@   at-call os.Open C19.open-regular: modeRegular(fileMode(info)) || (resolved != nil && modeRegular(fileMode(resolved.info)))
 //@   requires pre.captured: p != nil && meta != nil && tarW != nil
 
 //@ func (*Packer).resolveExternalLink -> (r, err)
